@@ -135,6 +135,9 @@ type Sess struct {
 	cleanup  func()
 	MaxTrace int
 	BareCall bool // Call uses rt.Call directly instead of Thread.CallContext
+	// OnEmit, if set, is called (on the goroutine running the interpreter)
+	// every time the program calls emit, after the event was recorded.
+	OnEmit func()
 }
 
 // Options for a session.
@@ -157,6 +160,9 @@ func NewSess(o Options) *Sess {
 		if len(s.Trace) < s.MaxTrace {
 			s.Trace = append(s.Trace, s.N.EncList(c.Etc()))
 			s.TraceV = append(s.TraceV, s.N.EncSlice(c.Etc()))
+		}
+		if s.OnEmit != nil {
+			s.OnEmit()
 		}
 		return c.Next(), nil
 	}, 0, true).SolemnlyDeclareCompliance(rt.ComplyCpuSafe | rt.ComplyMemSafe | rt.ComplyTimeSafe | rt.ComplyIoSafe)
